@@ -24,7 +24,7 @@ import collections
 import facts
 from facts import short
 
-Path = collections.namedtuple('Path', 'tokens sink bi')
+Path = collections.namedtuple('Path', 'tokens sink bi trace')
 STD_DISCR = {'None': 0, 'Some': 1, 'Ok': 0, 'Err': 1, 'Continue': 0, 'Break': 1}
 
 
@@ -70,7 +70,8 @@ def _adt_key(crate, path):
 
 
 class Interp:
-    def __init__(self, f, client, cap=4000, start=0, state=None):
+    def __init__(self, f, client, cap=4000, start=0, state=None, revisit=False):
+        self.revisit = revisit
         self.f = f
         self.c = client
         self.cap = cap
@@ -203,22 +204,26 @@ class Interp:
             v = self.c.param(self.f, l)
             if v is not None:
                 st[l] = v
-        self._go(self.start, st, {}, frozenset())
+        self._go(self.start, st, {}, frozenset(), ())
         return self.paths
 
-    def _emit(self, tokens, sink, bi):
-        self.paths.append(Path(dict(tokens), sink, bi))
+    def _emit(self, tokens, sink, bi, trace=()):
+        self.paths.append(Path(dict(tokens), sink, bi, trace))
         if len(self.paths) > self.cap:
             self.overflow = True
 
-    def _go(self, bi, st, tokens, onpath):
+    def _go(self, bi, st, tokens, onpath, trace=()):
         f = self.f
         while True:
             if self.overflow:
                 return
             if bi in onpath:
-                return     # back edge: one iteration is enough for a dispatch table
+                # back edge: a loop body is walked once, then the header is entered a second time to take its exit
+                if not self.revisit or (bi, 2) in onpath:
+                    return
+                onpath = onpath | {(bi, 2)}
             onpath = onpath | {bi}
+            trace = trace + (bi,)
             b = f.blocks[bi]
             tk2 = self.c.enter(f, bi, st, tokens, self)
             if tk2 is not None:
@@ -228,7 +233,7 @@ class Interp:
                     continue
                 lab = self.c.stmt_sink(f, bi, s, self)
                 if lab is not None:
-                    self._emit(tokens, lab, bi)
+                    self._emit(tokens, lab, bi, trace)
                     return
                 pl = s['pl']
                 if not pl['p']:
@@ -241,7 +246,7 @@ class Interp:
             k = t['t']
             lab = self.c.sink(f, bi, t, self)
             if lab is not None:
-                self._emit(tokens, lab, bi)
+                self._emit(tokens, lab, bi, trace)
                 return
             if k == 'goto' or k in ('drop', 'assert'):
                 bi = t['to']
@@ -265,12 +270,12 @@ class Interp:
                 d = self.resolve(self.operand(t['d'], bi, st), tokens)
                 edges = self._edges(t, d, tokens, bi)
                 for tb, tk in edges:
-                    self._go(tb, st, tk, onpath)
+                    self._go(tb, st, tk, onpath, trace)
                 return
             if k == 'return':
                 lab = self.c.at_return(f, bi, st, tokens, self)
                 if lab is not None:
-                    self._emit(tokens, lab, bi)
+                    self._emit(tokens, lab, bi, trace)
                 return
             return   # unreachable / resume / abort
 
@@ -355,3 +360,24 @@ def table(paths, keys, domains):
             und = any(any(str(k).startswith('?') for k in p.tokens) for p in compat)
         out[combo] = (sinks, und)
     return out
+
+
+def path_conds(f, path):
+    """the guard records (as Fn.cond_of) of the switch edges a path took, in order"""
+    out = []
+    tr = path.trace
+    for a, b in zip(tr, tr[1:]):
+        t = f.blocks[a]['term']
+        if t['t'] != 'switch':
+            continue
+        labels = [v for v, tb in t['targets'] if tb == b] + (['else'] if t['otherwise'] == b else [])
+        if labels and len({tb for _, tb in t['targets']} | {t['otherwise']}) > 1:
+            out.append(f.cond_of(a, frozenset(labels)))
+    return out
+
+
+class ReturnPaths(Client):
+    """every path to a return (feasible under constant propagation of flags and variants)"""
+
+    def at_return(self, f, bi, st, tokens, it):
+        return 'return'
